@@ -754,6 +754,10 @@ func (s *programState) makeAllotment(monetary *big.Int, items []parser.Allotment
 	}
 
 	if remainingAllotmentIndex != -1 {
+		// the other portions cannot take more than the whole
+		if totalAllotment.Cmp(big.NewRat(1, 1)) == 1 {
+			return nil, InvalidAllotmentSum{ActualSum: *totalAllotment}
+		}
 		allotments[remainingAllotmentIndex] = new(big.Rat).Sub(big.NewRat(1, 1), totalAllotment)
 	} else if totalAllotment.Cmp(big.NewRat(1, 1)) != 0 {
 		return nil, InvalidAllotmentSum{ActualSum: *totalAllotment}
